@@ -17,11 +17,12 @@ structure Base (E : Env U π) (s : St U π) : Prop where
 /-- everything the earlier developments say about a call -/
 theorem big_all {E : Env U π} {rank : UNT U → Nat} {Good : π → Prop} (H : OHyp E rank Good) {c : Call U π}
     {s s' : St U π} {r : Res π} (hb : Big E c s s' r) (h : Base E s) (h1 : SPre E c) (h2 : NPre c s) :
-    Base E s' ∧ Stable s s' ∧ Frame rank (c.bound rank) c.site s s' ∧ NPost c s' r ∧ SPost E c r := by
+    Base E s' ∧ Stable s s' ∧ Frame rank (c.bound rank) c.site s s' ∧ NPost c s' r ∧ SPost E c r ∧
+      (∀ sj, c.inner ≠ some sj → Kept s s' sj) := by
   obtain ⟨a1, a2⟩ := big_sound E H.ghyp hb h.sinv h1
   obtain ⟨b1, b2, b3⟩ := big_nodup E H.ghyp hb h.sinv h1 h.ninv h2
   exact ⟨⟨a1, b1, big_heaps E H.ghyp.kway H.weak hb h.hinv, by rw [big_deleted E hb H.ghyp.kway]; exact h.nodel⟩,
-    b2, big_frame E H.ghyp rank H.acyclic hb h.sinv h1, b3, a2⟩
+    b2, big_frame E H.ghyp rank H.acyclic hb h.sinv h1, b3, a2, big_emptyKeep E H.ghyp.kway hb⟩
 
 /-- two lists related element by element -/
 def Items {α β : Type} (R : α → β → Prop) : List α → List β → Prop
@@ -49,7 +50,8 @@ theorem Items.snoc {α β : Type} {R : α → β → Prop} : ∀ {l : List α} {
 def ItemOK (E : Env U π) (s : St U π) (nt : UNT U) (d : Sym × List (UNT U)) (it : π × Prog) : Prop :=
   AList.lookup (nt, d.1, d.2) s.maxRule = some it.2 ∧ HasPrio E it.2 nt it.1 ∧
   ∃ w kids, (d.2, w) ∈ altsOf E nt d.1 ∧ it.2 = Tree.node d.1 kids ∧ DerList E kids d.2 ∧
-    ∀ (i : Nat) (ai : Prog) (si : UNT U), kids[i]? = some ai → d.2[i]? = some si → Popped s si ai
+    ∀ (i : Nat) (ai : Prog) (si : UNT U), kids[i]? = some ai → d.2[i]? = some si →
+      AList.lookup none (s.succOf si) = some ai
 
 /-- phase 1 of `__init_non_terminal__` after the alternatives `done` -/
 structure Phase1 (E : Env U π) (s : St U π) (nt : UNT U) (done : List (Sym × List (UNT U))) (items : List (π × Prog))
@@ -91,10 +93,11 @@ theorem initPush_spec {E : Env U π} {rank : UNT U → Nat} {Good : π → Prop}
       Base E s' ∧ Only nt s s' ∧ Stable s s' ∧
       s'.heapOf nt = items.foldl (Heapq.push (ltE E.ops)) (s.heapOf nt) ∧
       s'.seenOf nt = s.seenOf nt ++ items.map (·.2) ∧ s'.succOf nt = s.succOf nt ∧
-      s'.initS = s.initS ∧ s'.maxNT = s.maxNT ∧ s'.keys = s.keys
+      s'.initS = s.initS ∧ s'.maxNT = s.maxNT ∧ s'.keys = s.keys ∧
+      (∀ it, it ∈ items → ∃ v, AList.lookup (nt, it.2) s.keys = some v)
   | [], [], s, s', _, hb, hp => by
     simp only [initPush, Option.some.injEq] at hp; subst hp
-    exact ⟨hb, Only.refl nt s, Stable.refl s, rfl, by simp, rfl, rfl, rfl, rfl⟩
+    exact ⟨hb, Only.refl nt s, Stable.refl s, rfl, by simp, rfl, rfl, rfl, rfl, by intro it hit; cases hit⟩
   | [], _ :: _, _, _, h, _, _ => h.elim
   | _ :: _, [], _, _, h, _, _ => h.elim
   | (P, v) :: rest, (pr, prog) :: items, s, s', hit, hb, hp => by
@@ -112,7 +115,8 @@ theorem initPush_spec {E : Env U π} {rank : UNT U → Nat} {Good : π → Prop}
       · rename_i s1 pr1 hcp
         split at hp
         · simp at hp
-        · have hd : Der E prog nt := ⟨pr, hpr⟩
+        · rename_i hkeyck
+          have hd : Der E prog nt := ⟨pr, hpr⟩
           have hs0 := hb.sinv.addSeen nt prog hd
           obtain ⟨hpr1, hs1, hcs⟩ := hs0.computePrio H.ghyp nt prog hd s1 pr1 hcp
           have hpe : pr1 = pr := hasPrio_fun H prog nt pr1 pr hpr1 hpr
@@ -143,12 +147,14 @@ theorem initPush_spec {E : Env U π} {rank : UNT U → Nat} {Good : π → Prop}
           have hrest' : Items (ItemOK E (pushBoth E s1 nt pr1 prog) nt) rest items := by
             refine Items.mono ?_ hrest
             intro d it _ ⟨a, b, w', kids', c1, c2, c4, c3⟩
-            refine ⟨?_, b, w', kids', c1, c2, c4, fun i ai si h1 h2 => (c3 i ai si h1 h2).mono st2⟩
+            refine ⟨?_, b, w', kids', c1, c2, c4, fun i ai si h1 h2 => st2 _ _ _ (c3 i ai si h1 h2)⟩
             rw [hpb]
             obtain ⟨c, rfl⟩ := hcs
             exact a
-          obtain ⟨r1, r2, r3, r4, r5, r6, r7, r8, r9⟩ := initPush_spec H nt rest items _ s' hrest' hb2 hp
-          refine ⟨r1, ho2.trans r2, st2.trans r3, ?_, ?_, ?_, ?_, ?_, ?_⟩
+          obtain ⟨r1, r2, r3, r4, r5, r6, r7, r8, r9, r10⟩ := initPush_spec H nt rest items _ s' hrest' hb2 hp
+          have hkeys1 : s1.keys = s.keys := by obtain ⟨c, rfl⟩ := hcs; rfl
+          have hkeys2 : (pushBoth E s1 nt pr1 prog).keys = s.keys := by rw [hpb]; exact hkeys1
+          refine ⟨r1, ho2.trans r2, st2.trans r3, ?_, ?_, ?_, ?_, ?_, ?_, ?_⟩
           · rw [r4, hpb, St.heapOf_setHeap, if_pos rfl, hcs.heapOf]
             rfl
           · rw [r5, hpb]
@@ -161,6 +167,13 @@ theorem initPush_spec {E : Env U π} {rank : UNT U → Nat} {Good : π → Prop}
           · rw [r7, hpb]; obtain ⟨c, rfl⟩ := hcs; rfl
           · rw [r8, hpb]; obtain ⟨c, rfl⟩ := hcs; rfl
           · rw [r9, hpb]; obtain ⟨c, rfl⟩ := hcs; rfl
+          · intro it hit
+            rcases List.mem_cons.mp hit with rfl | hit'
+            · cases hl : AList.lookup (nt, prog) s1.keys with
+              | none => simp [hl] at hkeyck
+              | some v' => exact ⟨v', by rw [← hkeys1]; exact hl⟩
+            · obtain ⟨v', hv'⟩ := r10 it hit'
+              exact ⟨v', by rw [← hkeys2]; exact hv'⟩
 
 theorem Items.mem_right {α β : Type} {R : α → β → Prop} : ∀ {l : List α} {m : List β}, Items R l m →
     ∀ b, b ∈ m → ∃ a, a ∈ l ∧ R a b
@@ -172,5 +185,16 @@ theorem Items.mem_right {α β : Type} {R : α → β → Prop} : ∀ {l : List 
     · exact ⟨a, List.mem_cons_self, h.1⟩
     · obtain ⟨a', ha', hr⟩ := Items.mem_right h.2 b hb'
       exact ⟨a', List.mem_cons_of_mem _ ha', hr⟩
+
+theorem Items.mem_left {α β : Type} {R : α → β → Prop} : ∀ {l : List α} {m : List β}, Items R l m →
+    ∀ a, a ∈ l → ∃ b, b ∈ m ∧ R a b
+  | [], [], _, a, ha => by cases ha
+  | [], _ :: _, h, _, _ => h.elim
+  | _ :: _, [], h, _, _ => h.elim
+  | a0 :: as, b :: bs, h, a, ha => by
+    rcases List.mem_cons.mp ha with rfl | ha'
+    · exact ⟨b, List.mem_cons_self, h.1⟩
+    · obtain ⟨b', hb', hr⟩ := Items.mem_left h.2 a ha'
+      exact ⟨b', List.mem_cons_of_mem _ hb', hr⟩
 
 end PS.UHS
